@@ -332,6 +332,7 @@ fn search_sweep(ctx: &mut Ctx) {
         (1, b"HTTP/1.0 404\r\n\r\n", &[0, 8]),
         (1, b"\r\nHTTP/1.1 301  Moved Permanently \r\nLocation : /a b\r\n folded\r\n\tmore \r\nBad Name\r\nZ: 1\r\n\r\n", &[1 + 2 + 8 + 32, 2, 0]),
         (1, b"HTTP/1.1 500 caf\xc3\xa9 \xff\n \t X: 1\nY: 2\n\n", &[16, 0]),
+        (1, b"HTTP/1.1 200 OK\r\nX: bar\r\n \r\n\t \r\nY: 1\n \n\r\n", &[2, 0]),
         (2, b"Host: a\r\nCookie: k=v; x=y\r\nX-Forwarded-For-0123456789-abcdefgh-ABCDEFGH: 0123456789 abcdefghijklmnopqrstuvwxyz\r\n\r\n", &[0]),
         (2, b"a:b\nC-d: e f\t\n\n", &[0]),
         (3, b"1aF;ext=1\r\n", &[0]),
